@@ -264,6 +264,41 @@ pub fn events(args: &[String]) {
             }
         }
     }
+    // first_step (no t_eval): g = t - c with c exactly at the end of the first accepted step(s), i.e. an exact zero at a step end
+    // while output is withheld or just delivered: whatever is reported (from either adjacent step), the recorded state is the
+    // continuous solution at the recorded time
+    {
+        let mut n = 0;
+        for method in ALL_METHODS {
+            for (xend, h0, mult) in [(2.0, 0.25, 1.0), (-2.0, 0.25, 1.0), (2.0, 0.5, 0.25), (-2.0, 0.5, 0.25), (3.0, 0.125, 1.0)] {
+                let d = if xend > 0.0 { 1.0 } else { -1.0 };
+                let mut p = Prob::new(Kind::Harmonic);
+                // steps of length h0 * mult are forced through max_step; the first output is due at x0 + d h0
+                let steps = (1.0 / mult) as usize;
+                let mut why = String::new();
+                for k in 1..=steps {
+                    let c = d * h0 * mult * k as f64;
+                    p.events = vec![EventSpec { a: 1.0, b: vec![0.0; p.n()], c, dir: 0, terminal: None }];
+                    let mut o = Options::builder().method(method).rtol(1e-3).atol(1e-6).dense_output(true).build();
+                    o.first_step = Some(h0);
+                    o.max_step = Some(h0 * mult);
+                    match solve_ivp(&p, 0.0, xend, &p.y0(), o) {
+                        Ok(sol) => {
+                            for (te, ye) in sol.t_events[0].iter().zip(sol.y_events[0].iter()) {
+                                if let Ok(v) = sol.sol(*te) {
+                                    if !close(&v, ye, 1e-7) && why.is_empty() { why = format!("first_step = {}, max_step = {}, g = t - {}: event at t = {}: recorded state {:?} but the continuous solution there is {:?}", h0, h0 * mult, c, te, ye, v); }
+                                }
+                            }
+                        }
+                        Err(e) => why = format!("solve_ivp error {:?}", e),
+                    }
+                }
+                println!("{{\"kind\":\"ev\",\"case\":{},\"problem\":\"Harmonic\",\"method\":\"{}\",\"x0\":0,\"xend\":{},\"first_step\":{},\"max_step\":{},\"branch\":\"zero-at-withheld-step-end\",\"finding_key\":\"{}\",\"ok\":{},\"why\":{:?}}}",
+                    670000 + n, method_name(method), xend, h0, h0 * mult, if why.is_empty() { "" } else { "c08-state" }, why.is_empty(), why);
+                n += 1;
+            }
+        }
+    }
     // the location of an event must not depend on the scale of the event function: g = s (t - c) for tiny and large s
     {
         let mut n = 0;
